@@ -78,6 +78,14 @@ structure DReq where
   body : Bytes
 deriving DecidableEq, Repr
 
+/-- the duration fields of `ipfsproxy.Config` (milliseconds; defaults of config.go) -/
+structure Timeouts where
+  readHeader : Nat := 5000
+  idle : Nat := 60000
+  read : Nat := 0
+  write : Nat := 0
+deriving DecidableEq, Repr
+
 structure Env where
   dStatus : Nat := 200
   dBody : Bytes := []
@@ -94,6 +102,11 @@ structure Env where
       3 = accepted but no file in the body (no root to pin unless the adder wraps in a directory) -/
   ing : Nat := 2
   extractPath : Bytes := []
+  /-- the proxy's configured timeouts (round 8) -/
+  cfg : Timeouts := {}
+  /-- the daemon starts answering after `dDelay` ms and pauses `dGap` ms in the middle of the body -/
+  dDelay : Nat := 0
+  dGap : Nat := 0
 deriving Repr
 
 structure Input where
@@ -512,12 +525,83 @@ def runWith (mths : List String) (tbl : List Gen.C12.Route) (typedUnpin : Bool) 
 
 def run (i : Input) (obs : AddObs) : Output := runWith Gen.C12.methods Gen.C12.routes typedUnpinNow i obs
 
+/-! ## relay set-up (round 8): the model INTERPRETS the transport regenerated from `New` -/
+
+/-- the value (ms) of a duration source under a configuration; `none`: not a duration this model understands -/
+def durMs (c : Timeouts) : Gen.C12.Dur → Option Nat
+  | .cfg .readTimeout => some c.read
+  | .cfg .readHeaderTimeout => some c.readHeader
+  | .cfg .writeTimeout => some c.write
+  | .cfg .idleTimeout => some c.idle
+  | .ms n => some n
+  | .other _ => none
+
+/-- the value a field of the transport ends up with (literal field, later assignments override) -/
+def fieldVal (fs : List (String × Gen.C12.Dur)) (name : String) : Option Gen.C12.Dur :=
+  ((fs.filter (fun f => f.1 == name)).getLast?).map (·.2)
+
+/-- the bound (ms) the relay's round tripper puts on the daemon's time to its first response byte; `none` = it waits
+    for ever. `http.DefaultTransport` (and a clone of it) sets no `ResponseHeaderTimeout`; on an `http.Transport`
+    the field bounds it when non-zero. (Dial/TLS/Expect-Continue/idle-pool timeouts do not bound a request the daemon
+    has accepted; `httputil.ReverseProxy` adds no deadline of its own.) -/
+def ttfbBound (k : Gen.C12.TransportKind) (fs : List (String × Gen.C12.Dur)) (c : Timeouts) : Option Nat :=
+  match k with
+  | .transportLit =>
+    match fieldVal fs "ResponseHeaderTimeout" with
+    | some d =>
+      match durMs c d with
+      | some 0 => none
+      | some n => some n
+      | none => none
+    | none => none
+  | _ => none
+
+/-- transport fields whose meaning this model knows (none of them but ResponseHeaderTimeout bounds an accepted request) -/
+def knownTransportFields : List String :=
+  ["Proxy", "DialContext", "Dial", "MaxIdleConns", "MaxIdleConnsPerHost", "MaxConnsPerHost", "IdleConnTimeout",
+   "TLSHandshakeTimeout", "ResponseHeaderTimeout", "ExpectContinueTimeout", "ForceAttemptHTTP2", "TLSClientConfig",
+   "DisableKeepAlives", "DisableCompression", "WriteBufferSize", "ReadBufferSize"]
+
+/-- fail-closed: the translator resolved the transport, every field is one the model knows, and the
+    `ResponseHeaderTimeout` (if set) is a duration source the model can evaluate -/
+def relaySetupUnderstood (k : Gen.C12.TransportKind) (fs : List (String × Gen.C12.Dur)) : Bool :=
+  (match k with | .unknown _ => false | _ => true) &&
+  fs.all (fun f => knownTransportFields.contains f.1) &&
+  (match fieldVal fs "ResponseHeaderTimeout" with | some (.other _) => false | _ => true)
+
+/-- the daemon's answer comes later than the relay is prepared to wait -/
+def timedOut (k : Gen.C12.TransportKind) (fs : List (String × Gen.C12.Dur)) (e : Env) : Bool :=
+  match ttfbBound k fs e.cfg with
+  | some t => decide (t < e.dDelay)
+  | none => false
+
+/-- `httputil.ReverseProxy`'s default ErrorHandler: 502, no body; the daemon did receive the request -/
+def gatewayOut (i : Input) (p : Bytes) : Output :=
+  { relayOut i p with status := 502, body := [], dhdr := [] }
+
+/-- `runWith` with the relay set-up interpreted: a relayed request whose daemon is slower than the transport's
+    response-header timeout is answered 502 -/
+def runT (k : Gen.C12.TransportKind) (fs : List (String × Gen.C12.Dur)) (mths : List String) (tbl : List Gen.C12.Route)
+    (typedUnpin : Bool) (i : Input) (obs : AddObs) : Output :=
+  match routeWith mths tbl i.method i.path with
+  | .relay =>
+    if timedOut k fs i.env then gatewayOut i ((pctDecode false i.path).getD [])
+    else relayOut i ((pctDecode false i.path).getD [])
+  | _ => runWith mths tbl typedUnpin i obs
+
+/-- today's code: table, Unpin typing AND relay transport as regenerated -/
+def runNow (i : Input) (obs : AddObs) : Output :=
+  runT Gen.C12.relayTransport Gen.C12.relayTransportFields Gen.C12.methods Gen.C12.routes typedUnpinNow i obs
+
 /-- the model's arm, for the histogram -/
 def arm (i : Input) (obs : AddObs) : String :=
   match route i.method i.path with
   | .badUrl => "badurl"
   | .redirect => "redirect301"
-  | .relay => "relay-" ++ i.method
+  | .relay => "relay-" ++ i.method ++
+      (if i.env.dDelay > 0 then (if i.env.dDelay > i.env.cfg.readHeader then "-slower-than-read-header-timeout" else "-slow") else "") ++
+      (if i.env.dGap > 0 then "-paused-body" else "") ++
+      (if timedOut Gen.C12.relayTransport Gen.C12.relayTransportFields i.env then "-502-transport-timeout" else "")
   | .hijack h arg =>
     let o := handlerOut typedUnpinNow h i.env (handlerQuery i arg) obs
     let unpinRefused := h == "addHandler" && o.status == 200 && qGet (handlerQuery i arg) b!"pin" == b!"false" &&
